@@ -34,6 +34,7 @@ TRUSTED_BASE = [
     "the model of a transaction (lean/SpowtdModel/Model/Txn.lean) is tied to the code by checking its hypothesis "
     "(singleTxnB of the real SQL trace, declared footprints) on every run",
 ]
+SQL_TIE = ('load', 'classify', 'zeta_grid', 'rise', 'recession', 'set_curvature')
 ASSUMPTIONS = [
     "power loss / torn pages are SQLite's responsibility; process death is simulated by SIGKILL (the OS keeps written pages)",
     "steps after loading: classify, set-zeta-grid, set-curvature, rise, recession",
@@ -251,6 +252,26 @@ def run(ctx):
             for mode, k in faults:
                 copy_db(before_db, work)
                 r = forked(argv_of(st, work, tr, zstep), mode, k, ctx.tmp)
+                if mode == "kill" and k % 2 == 1:
+                    # what a user does after a killed job: run the command again, before anything else has opened the
+                    # file (the first program to open it finds the hot journal and must let SQLite roll it back)
+                    r2 = cli.run(argv_of(st, work, tr, zstep))
+                    again = cli.dump(work)
+                    ctx.case((d_i, st, "kill-then-rerun", k), True)
+                    ctx.count("faults_kill_then_immediate_rerun")
+                    after_commit = single_after_commit(t["stmts"], k, commit_idx)
+                    good = again == new and (r2[0] == "ok" or after_commit or k == commit_idx)
+                    ctx.obligation("a killed step run again at once (hot journal still on disk) ends in the complete result", good)
+                    if not good:
+                        ctx.violation("impl-violation", "c20Rerun", {
+                            "input": dict(inp0, step=st, fault="kill, then the same command at once", index=k,
+                                          statement=(t["stmts"][k] if k < n_traced else "<end>")),
+                            "impl": {"status_of_rerun": list(r2), "tables_differing_from_complete_result": [n for n in again if again[n] != new[n]]},
+                            "oracle": {"name": "c20Rerun", "result": False,
+                                       "witness": {"why": "after a kill the step, run again before anything else opened the file, does not "
+                                                          "reach its complete result", "step": st, "mode": "kill-then-rerun", "index": k,
+                                                   "status": list(r2)}}})
+                    continue
                 got = cli.dump(work)
                 wrote_before = any(classify_stmt(s) == "w" for s in t["stmts"][:k]) if mode == "kill" else k > 0
                 ctx.case((d_i, st, mode, k), wrote_before)
